@@ -379,6 +379,7 @@ class _R:
     st = None
     round = None
     round_ctx = None
+    frame = None
 
 
 def worker_init():
@@ -406,6 +407,9 @@ def worker_init():
     }
     rm.init()
     install()
+    # run-time tie of the CoreVM frame theorem vm_advance_frame: wraps the CURRENT statemachine._advance_head_front (nothing else here patches it)
+    from ..translate.c10_frame import FrameRecorder
+    _R.frame = FrameRecorder().install(sm)
 
 
 def install():
@@ -658,6 +662,10 @@ def run_impl(case):
         obs["classify_error"] = f"{type(e).__name__}: {str(e)[:200]}"
         return obs
     obs["rounds"], obs["rounds_full"], obs["round_orphans"] = [], [], []
+    fr = _R.frame
+    if fr is not None:
+        fr.calls = fr.checked = fr.not_closed = fr.raised = fr.bystanders = 0
+        fr.violations = []
     signal.signal(signal.SIGVTALRM, _vt_alarm)
     for ev in case["events"]:
         st = {"slides": 0, "moves": 0, "ievents": 0, "colang_errors": 0, "rtc_exc": [], "samples": [], "scans": [], "scan": None,
@@ -710,6 +718,8 @@ def run_impl(case):
         if call["budget_hit"] or call["pe_exc"] or state is None:
             break
     _R.round_ctx = None
+    if fr is not None:
+        obs["frame"] = dict(fr.summary(), first=[list(v) for v in fr.violations[:3]])
     obs["round_orphans"] = obs["round_orphans"][:3]
     obs["flows"] = progs or {}
     obs["py_acyclic"] = {k: py_acyclic(v) for k, v in (progs or {}).items()}
@@ -1047,6 +1057,13 @@ def oracle(case, obs):
         if c.get("errs", 0) > c["colang_errors"]:
             return (f"{c['errs']} runtime error(s) ({', '.join(c.get('err_types', []))}) were raised while processing {c['event']} but only "
                     f"{c['colang_errors']} ColangError event(s) were processed in that call")
+    # "fails only that flow ... unrelated flows": run-time check of the frame theorem vm_advance_frame around every top-level
+    # _advance_head_front call (harness/translate/c10_frame.py)
+    fr = obs.get("frame") or {}
+    if fr.get("violations"):
+        first = fr["first"][0]
+        return (f"an instance outside the family of the advanced flow(s) {first[0]} changed during _advance_head_front: "
+                f"flow {first[1]}: {first[2]}")
     return None
 
 
@@ -1059,6 +1076,8 @@ def signature(case, obs, msg):
         # the error is raised by _compute_event_matching_score (outside the try/except of _advance_head_front)
         if any(c["event"] == "M" and c["rtc_exc"] for c in obs.get("calls", [])):
             return "error-raised-while-matching"
+    if "changed during _advance_head_front" in msg:
+        return "frame:bystander-changed"
     if "did not terminate within the step budget" in msg and meta.get("cascade"):
         return "activated-flow-fails-while-starting-by-pattern-failure"
     if "did not terminate within the step budget" in msg and meta["mode"] in ("active", "launcher") and meta["phase"] == "slide" \
@@ -1110,6 +1129,13 @@ def tags(case, obs):
             if r["exc"]:
                 t.append("slide-exc:" + r["exc"])
                 break
+        fr = obs.get("frame") or {}
+        if fr.get("checked"):
+            t.append("frame:checked")
+        if fr.get("not_closed"):
+            t.append("frame:not-closed")
+        if fr.get("violations"):
+            t.append("frame:violation")
         ne = sum(c.get("errs", 0) for c in obs["calls"])
         t.append("errors-raised:" + (str(ne) if ne < 3 else "3+"))
         if sum(1 for c in obs["calls"] if c.get("errs", 0)) > 1:
